@@ -172,6 +172,18 @@ def corpus(features=()):
                         bad=guard_prelude + helper + "fn main() { need_sync::<%s>(); }\n" % ty,
                         good=guard_prelude + uses_world))
     out.append(dict(name="world_moved_to_thread__send_not_sync_vs_sync_not_send_component", family="trait", bad=guard_prelude + moved, good=cell_prelude + moved))
+    # the helper types: a runtime-checked Borrow (it reads the RefCell flags of a world that stays usable in the parent thread)
+    # must not cross a thread boundary; an exclusive View may, exactly when its components are Send
+    out.append(dict(name="borrow_sent_to_thread", family="trait",
+                    bad=prog("    let b = world.borrow(e).unwrap();\n    std::thread::scope(|s| { s.spawn(move || { let _ = b.component::<CompA>().0; }); });\n"),
+                    good=prog("    let b = world.borrow(e).unwrap();\n    std::thread::scope(|s| { s.spawn(|| { let _ = 1; }); let _ = b.component::<CompA>().0; });\n")))
+    out.append(dict(name="archetype_borrow_sent_to_thread", family="trait",
+                    bad=prog("    let b = world.arch_foo.borrow(e).unwrap();\n    std::thread::scope(|s| { s.spawn(move || { let _ = b.entity(); }); });\n"),
+                    good=prog("    let b = world.arch_foo.borrow(e).unwrap();\n    std::thread::scope(|s| { s.spawn(|| { let _ = 1; }); let _ = b.entity(); });\n")))
+    view_thread = "    let mut v = world.view(e).unwrap();\n    std::thread::scope(|s| { s.spawn(move || { let _ = v.component_mut::<CompA>().0; }); });\n"
+    out.append(dict(name="view_of_rc_component_sent_to_thread", family="trait",
+                    bad=rc_prelude.replace("CompB(pub std::rc::Rc<u32>)", "CompB(pub std::rc::Rc<u32>)") + "fn main() {\n    let mut world = EcsWorld::new();\n    let e = world.create::<ArchFoo>((CompA(1), CompB(std::rc::Rc::new(2))));\n" + view_thread + "}\n",
+                    good=prog(view_thread)))
     # handles are Copy + Send + Sync whatever the components are: must compile (paired with the world itself not being Send)
     out.append(dict(name="handles_are_copy_send_sync", family="trait",
                     bad=rc_prelude + helper + "fn main() { need_css::<EcsWorld>(); }\n",
